@@ -79,6 +79,10 @@ func (opts *Options) Validate() error {
 		return fmt.Errorf("%w: invalid preallocSize", ErrInvalidOptions)
 	}
 
+	if !isSupportedCompressionFormat(opts.compressionFormat) {
+		return fmt.Errorf("%w: invalid compressionFormat", ErrInvalidOptions)
+	}
+
 	return nil
 }
 
